@@ -45,5 +45,33 @@ for m in metas:
     t+="| %s | %s | %s / %s / %s->%s | %s | %s |\n"%(m['id'],title,'ok' if c['builds'] else 'NO','ok' if c['baseline_tests_pass'] else 'flaky/NO',c['demo_on_clean_tree'],c['demo_with_patch'],fp,nowtxt.replace('|','/'))
 t+="\nFirst pass (the checks as they stood when the agents were started): %d of %d reported by the property attacked, %d of %d by some property. After the strengthening described in 8.2: %d of %d.\n\n"%(first,n,firstany,n,now,n)
 put('seeded',t+open(V+'/tools/design_seeded_notes.md').read())
+# benign
+fp={}
+try: fp=json.load(open(V+'/benign/first_pass.json'))
+except Exception: pass
+bm=[]
+for d in sorted(glob.glob(V+'/benign/C*/')):
+    try: bm.append(json.load(open(d+'meta.json')))
+    except Exception: pass
+nb=len(bm)
+if nb:
+    fsil=sum(1 for m in bm if fp.get(m['id'],{}).get('verdict')=='silent')
+    nsil=sum(1 for m in bm if m.get('verdict')=='silent')
+    t="%d changes from %d agents (four per property). First measurement: %d of %d silent. Now: **%d of %d silent**, %d alarm.\n\n"%(nb,len(set(m['property'] for m in bm)),fsil,nb,nsil,nb,nb-nsil)
+    t+="| id | refactoring (agent's title) | first | now | properties alarming now |\n|---|---|---|---|---|\n"
+    for m in bm:
+        al=sorted(set(a.split(':')[0] for a in m.get('alarms',[])))
+        t+="| %s | %s | %s | %s | %s |\n"%(m['id'],(m.get('title') or '').replace('|','/')[:120],fp.get(m['id'],{}).get('verdict','?'),m.get('verdict'),', '.join(al))
+    t+=open(V+'/tools/design_benign_notes.md').read()
+    rem=[m for m in bm if m.get('verdict')!='silent']
+    if rem:
+        for m in rem:
+            first=(m.get('alarms') or [''])[0]
+            mm=re.match(r'(C\d\d): (violated|undecided) (R[0-9.]+) (.*?) at ',first)
+            t+="* **%s** (%s): %s\n"%(m['id'],(m.get('title') or '')[:100],('%s %s %s'%(mm.group(1),mm.group(3),mm.group(4)[:90])) if mm else first[:120])
+        t+=open(V+'/tools/design_benign_remaining.md').read() if os.path.exists(V+'/tools/design_benign_remaining.md') else ''
+    else:
+        t+="Nothing: all stored changes are silent.\n"
+    put('benign',t+"\n")
 open(V+'/DESIGN.md','w').write(s)
 print('DESIGN.md regenerated:',n,'seeded,',first,'first pass,',now,'now')
